@@ -154,6 +154,12 @@ class SqlInterp(Interp):
             parts = [_lift(x) for x in args()]
             agg = all if last == "and_" else any
             return Sql(lambda item, parts=parts, agg=agg: agg(bool(p.fn(item)) for p in parts), last)
+        if name.startswith("sqlalchemy.") and ".func." in name and last in ("abs", "mod"):
+            a = [_lift(x) for x in args()]
+            if last == "abs" and len(a) == 1:
+                return Sql(lambda item, e=a[0]: abs(e.fn(item)), "abs")
+            if last == "mod" and len(a) == 2:
+                return Sql(lambda item, x=a[0], y=a[1]: _sql_mod(x.fn(item), y.fn(item)), "mod")
         if name.startswith("sqlalchemy.") and last == "not_":
             e = _lift(args()[0])
             return Sql(lambda item, e=e: not e.fn(item), "not")
